@@ -1,5 +1,6 @@
 import Mkts.Proto
 import Mkts.Model.OnDiskAgg
+import Mkts.Model.OnDiskAggTie
 import Mkts.Model.Trigger
 import Mkts.Driver.Store
 /-!
@@ -31,24 +32,6 @@ def renderDest (sym : String) (dn : String) (slots : Option Slots) : String :=
 def slotsOfBars (tf : Int) (rows : CS) : Slots :=
   applyCmds [] (writeRecords tf (rows.map (fun b => ⟨b.t, payloadOfBar b⟩)))
 
-/-- the hypotheses of `C24_partial` that one trigger call violates -/
-def fireHyps (cache : Option Cached) (year : Int) (recs : List Rec) : List String :=
-  match recs with
-  | [] => []
-  | r0 :: rest =>
-    let ts := (r0 :: rest).map (recTime year)
-    let head := recTime year r0
-    let tail := recTime year ((r0 :: rest).getLast (by simp))
-    let ordered := ts.all (fun t => decide (head ≤ t) && decide (t ≤ tail))
-    (if ordered then [] else ["request_time_ordered"]) ++
-    (match cache with
-     | some c =>
-       if c.valid tail head then
-         (if ts.any (fun t => c.cs.any (fun b => b.t == t)) then ["no_cached_bar_rewritten"] else []) ++
-         (if decide (c.tail ≤ head) && decide (tail ≤ c.head) then [] else ["write_within_cached_window"])
-       else []
-     | none => [])
-
 structure SymSt where
   sym : String
   st : St
@@ -58,7 +41,6 @@ structure Acc where
   syms : List SymSt
   outM : List String
   outS : List String
-  hyps : List String
   inDomain : Bool
 
 def getSym (l : List SymSt) (s : String) : St :=
@@ -91,15 +73,10 @@ def runOda (dests : List Dest) : Acc → List String → Option Acc
             (Store.parseRows rows).map (fun rws => rws.map (fun x => (⟨x.1, x.2.2⟩ : Row)))
           else none
         | _ => none
-      let (st1, hy) := match fires with
-        | some req =>
-          let cmds := writeRecords minuteNs req
-          -- one trigger call per year file; the generator keeps a request inside one year
-          let hy : St × List String := match cmdYears cmds with
-            | [y] => (st0, fireHyps st0.cache y (cmds.map (fun (c : Store.Cmd) => (⟨c.index, c.payload⟩ : Rec))))
-            | _ => (st0, ["single_year_request"])
-          (stepWrite dests st0 req, hy.2)
-        | none => (st0, [])
+      -- the model follows the source: `codeVariant` is read off the regenerated skeletons
+      let st1 := match fires with
+        | some req => stepWrite codeVariant dests st0 req
+        | none => st0
       let names := distinctNames dests
       let m := names.map (fun dn =>
         renderDest sym dn ((st1.dest.find? (fun (e : Str × Slots) => String.ofList e.1 == dn)).map (fun e => e.2)))
@@ -114,7 +91,7 @@ def runOda (dests : List Dest) : Acc → List String → Option Acc
       let dom := barsInDomain dests base
       runOda dests
         ⟨bs', putSym a.syms sym st1, a.outM ++ [r ++ "{" ++ "|".intercalate m ++ "}"],
-         a.outS ++ [r ++ "{" ++ "|".intercalate (s.map (·.2)) ++ "}"], a.hyps ++ hy, a.inDomain && dom⟩ rest
+         a.outS ++ [r ++ "{" ++ "|".intercalate (s.map (·.2)) ++ "}"], a.inDomain && dom⟩ rest
 
 def odaOp : Op := fun args =>
   match args with
@@ -124,12 +101,12 @@ def odaOp : Op := fun args =>
     match newTrigger (names.map String.toList) with
     | none => "M:err:newtrigger"
     | some dests =>
-      match runOda dests ⟨[], [], [], [], [], true⟩ steps with
+      match runOda dests ⟨[], [], [], [], true⟩ steps with
       | none => "M:unsupported"
       | some a =>
         let m := " ".intercalate a.outM
         if a.inDomain then
-          s!"M:{m}\tS:{" ".intercalate a.outS}\tH:{",".intercalate a.hyps.eraseDups}"
+          s!"M:{m}\tS:{" ".intercalate a.outS}"
         else s!"M:{m}"
 
 def ops : OpTable := [("oda", odaOp)]
